@@ -610,9 +610,15 @@ func main() {
 		for _, ops := range e2eCorpus() {
 			sess = append(sess, ops)
 		}
+		for _, ops := range pipeCorpus() {
+			sess = append(sess, ops)
+		}
 		ncorp := len(sess)
 		for i := 0; i < c.N(19); i++ {
 			sess = append(sess, genE2EOps(c.Rng.Fork(), false))
+		}
+		for i := 0; i < c.N(3); i++ {
+			sess = append(sess, genPipeOps(c.Rng.Fork()))
 		}
 		var asess [][]EOp
 		for i := 0; i < c.N(6); i++ {
